@@ -40,6 +40,21 @@ impl<T: Elem> H for OwnedRegion<T> {
     }
 }
 
+impl H for flatcontainer::impls::codec::CodecRegion<flatcontainer::impls::codec::DictionaryCodec> {
+    fn of_u(u: &U) -> Option<Vec<u8>> {
+        bytes_of_u(u)
+    }
+    fn to_u(v: &Vec<u8>) -> U {
+        u_of_bytes(v)
+    }
+    fn idx_u(i: (usize, usize)) -> U {
+        U::pair(i.0, i.1)
+    }
+    fn probe(it: &[u8]) -> U {
+        u_of_bytes(it)
+    }
+}
+
 impl<T: Elem> H for MirrorRegion<T>
 where
     MirrorRegion<T>: Region<Owned = T, Index = T>,
